@@ -737,6 +737,16 @@ class C13(Check):
             if mm:
                 ctx.violate(dict(sig, invariant="reads_agree_with_model"), {"op": op, "mismatch": mm}, idx)
                 l = env.new(list(m))
+            else:
+                # keys() / items() are ordered views: a linear scan of the list yields the keys in list order
+                try:
+                    mk = [env.key(x) for x in m]
+                    if list(l.keys()) != mk or [k for k, _ in l.items()] != mk:
+                        ctx.violate(dict(sig, invariant="key_views_in_list_order"),
+                                    {"op": op, "keys": strip_addr(repr(list(l.keys())))[:120], "scan": strip_addr(repr(mk))[:120]}, idx)
+                        l = env.new(list(m))  # (a fresh container is in order: the next divergence is attributed to its own step)
+                except Exception:  # noqa: BLE001  (unkeyable model items are reported by observe_mismatch)
+                    pass
             break
         ctx.log(idx, name, abs_value(list(m)))
         return l, m
